@@ -23,7 +23,7 @@ ASSUMPTIONS = ["reference model query definitions follow the docstrings",
 def generate(seed, tier):
     rng = stream(seed, "c05")
     big = tier == "thorough" and rng.random() < 0.15
-    spec = gen_instance(rng, huge=0.03, max_jobs=6 if big else 4, max_machines=5 if big else 4, max_ops=5 if big else 4)
+    spec = gen_instance(rng, huge=0.03, sparse_ids=0.03, large=0.008, max_jobs=6 if big else 4, max_machines=5 if big else 4, max_ops=5 if big else 4)
     names, style = gen_filter(rng, None, p_none=0.45)
     faulty = rng.random() < 0.5
     extra = [(0.04, lambda r: ["mk_uns"])]
